@@ -47,6 +47,7 @@ class Ctx:
         self.violations = []      # dicts: sig, detail, replay
         self.known_hits = []      # known findings reproduced
         self.undecided = []       # reasons
+        self.skipped = []         # scenarios a driver could not set up
         self.assumptions = []
         self.exhaustive = False
         self.extra = {}
@@ -234,7 +235,12 @@ class Ctx:
                 self.violation(v["sig"], v["detail"], {"scenario": v.get("scenario"), "repro": v.get("repro"),
                                                        "driver_out": out})
             else:
-                self.undecided.append("driver: %s: %s" % (v["sig"], v["detail"]))
+                # a scenario the driver could not set up (e.g. a client did not connect in time on a loaded machine):
+                # nothing is claimed about it; tolerated up to a tenth of the driver's scenarios, undecided beyond
+                self.skipped.append("driver: %s: %s" % (v["sig"], v["detail"]))
+        n_ok = max(res.get("evaluations", 0), 1)
+        if len(self.skipped) > max(1, n_ok // 10):
+            self.undecided.append("%d scenarios could not be set up: %s" % (len(self.skipped), "; ".join(self.skipped[:3])))
 
     # ------------------------------------------------------------- violations
     def violation(self, sig, detail, repro=None, files=()):
@@ -395,6 +401,10 @@ class Ctx:
               "violations": len(self.violations)}
         if self.undecided:
             ev["coverage"]["undecided"] = self.undecided[:20]
+        if self.skipped:
+            ev["coverage"]["skipped_scenarios"] = self.skipped[:20]
+            for u in self.skipped[:5]:
+                print("SKIPPED:", u)
         os.makedirs(os.path.join(VERIF, "evidence"), exist_ok=True)
         json.dump(ev, open(os.path.join(VERIF, "evidence", self.prop + ".json"), "w"), indent=1, default=str)
         if not os.environ.get("VERIF_KEEP"):
